@@ -3,7 +3,7 @@ import time
 
 import numpy as np
 
-from .. import api, gen, refmodel, resultcheck
+from .. import api, gen, refmodel, resultcheck, planwork
 
 ID = "C10"
 LEVEL = "exploration"
@@ -27,7 +27,7 @@ MIN_NONTRIVIAL = {"quick": 200, "thorough": 3000}
 JOBS = {"quick": 8, "thorough": 16}
 
 
-def shards(tier, seed):
+def _base_shards(tier, seed):
     out = []
     if tier == "quick":
         n_ana, n_syn, budget = 30, 40, 45
@@ -227,6 +227,10 @@ def mc_cell(rec, params):
 
 
 def run_shard(params, rec):
+    if params.get("kind") == "repo-tests":
+        # thorough tier: the repository's own tests as a workload, every result they produce
+        # checked by this property's result-level monitor (speckit_verif.pytest_plugin)
+        return planwork.run_repo_tests(ID, rec, tests=planwork.RESULT_TESTS)
     if params["kind"] == "mc":
         return mc_cell(rec, params)
     t0 = time.time()
@@ -248,3 +252,11 @@ def replay(case, rec):
     elif k == "mc":
         mc_cell(rec, {"g2": case["g2"], "n": case["n"], "R": case["R"], "win": case["win"],
                       "seed": case["seed"][0], "shard": case["seed"][1]})
+
+
+def shards(tier, seed):
+    out = list(_base_shards(tier, seed))
+    if tier == "thorough":
+        out.append({"name": "repo-tests", "threads": 4, "timeout": 2400,
+                    "params": {"kind": "repo-tests"}})
+    return out
